@@ -35,6 +35,11 @@ def new_run():
          "title/description/error/element_wise/groupby, no Column default/"
          "metadata/parsers/drop_invalid_rows, no MultiIndex-level options, "
          "no custom checks)",
+         "not judged (counted under undecided:*): the JSON route for "
+         "non-string column labels (JSON object keys are strings), "
+         "numerically equal statistics that differ only in int/float type "
+         "or in the sign of zero, schemas whose >=/<= pair the writer "
+         "refuses as contradictory",
          "failing cases are minimised by re-executing the real writers on "
          "specs with one feature removed at a time; the mechanism key is a "
          "function of the minimal witness"])
@@ -133,7 +138,8 @@ def _attribute(run, label, spec, route, r, probes_for, collect):
             rm, mini = res, cur
         mtoks = G.tokens(mini)
         for group in K.split(rm.kinds):
-            mech = K.classify(route, group, mtoks, rm.detail)
+            mech = K.classify(route, group, mtoks,
+                              dict(rm.detail, __text__=rm.text or ""))
             gkind = K.primary(group)
             witness = {
                 "label": label, "route": route, "kinds": group,
